@@ -308,6 +308,25 @@ theorem addLoop_zero : ∀ fuel (d : Tree) i, addLoop fuel d i 0 = d := by
 
 theorem add_zero (d : Tree) (i : Nat) : d.add i 0 = d := addLoop_zero _ _ _
 
+/-- `At(i)` (= `SumRange(i, i)`) is cell `i`. -/
+theorem at_spec (d : Tree) (a : Nat → Int) (hf : Fen d a) (i : Nat) (hi : i < d.length) : d.at (i : Int) = a i := by
+  unfold Tree.at Tree.sumRange
+  rw [sumUntil_spec d a hf i hi]
+  cases i with
+  | zero => simp [Tree.sumUntil, psum]
+  | succ k =>
+    have : ((k + 1 : Nat) : Int) - 1 = (k : Int) := by omega
+    rw [this, sumUntil_spec d a hf k (by omega)]
+    simp only [psum]; omega
+
+/-- `Clear(i)` returns cell `i` and sets it to zero. -/
+theorem clear_spec (d : Tree) (a : Nat → Int) (hf : Fen d a) (i : Nat) (hi : i < d.length) :
+    (d.clear i).2 = a i ∧ Fen (d.clear i).1 (upd a i (-(a i))) := by
+  unfold Tree.clear
+  dsimp only
+  rw [at_spec d a hf i hi]
+  exact ⟨rfl, fen_add d a hf i _⟩
+
 /-! ## Sequences of `Add`s -/
 
 def applyAdds (d : Tree) : List (Nat × Int) → Tree
